@@ -771,6 +771,7 @@ class _RState(object):
         self.objs = {}  # local var -> class of freshly built object (c = cls())
         self.local_types = {}
         self.lists = set()
+        self.tuples = {}
         self.checkpoints = {}
         self.counter = 0
         self.var_expr = {}  # var -> defining expression for non-read values
@@ -810,6 +811,25 @@ class _RState(object):
                 sc = eng.struct_call(s.value, fi, 'unpack', self.venv)
                 if sc is not None:
                     return self.unpack_items(s.value, sc, [x.id for x in t.elts], s)
+            if isinstance(t, (ast.Tuple, ast.List)) and not any(isinstance(x, ast.Starred) for x in t.elts):
+                # (a, obj.b, c) = <multi-field unpack>   or   (a, obj.b, c) = fields   with   fields = <multi-field unpack>
+                src = None
+                if isinstance(s.value, ast.Name) and self.tuples.get(s.value.id) == len(t.elts):
+                    src, out = s.value.id, []
+                else:
+                    sc = eng.struct_call(s.value, fi, 'unpack', self.venv) if isinstance(s.value, ast.Call) else None
+                    if sc is not None:
+                        self._tmp = getattr(self, '_tmp', 0) + 1
+                        src = '_unpacked%d' % self._tmp
+                        out = self.unpack_items(s.value, sc, ['%s[%d]' % (src, i) for i in range(len(t.elts))], s)
+                if src is not None:
+                    for i, x in enumerate(t.elts):
+                        sub = ast.Subscript(value=ast.Name(id=src, ctx=ast.Load()), slice=ast.Constant(value=i), ctx=ast.Load())
+                        a = ast.Assign(targets=[x], value=sub)
+                        for n_ in ast.walk(a):
+                            ast.copy_location(n_, s)
+                        out.extend(self.stmt(a))
+                    return out
             if _touches(s, self.stream):
                 raise Undecided('unmodelled reader assignment: %s' % norm(s)[:80], s)
             return []
@@ -895,6 +915,17 @@ class _RState(object):
         if isinstance(value, ast.List) and not value.elts and var:
             self.lists.add(var)
             return []
+        if var and isinstance(value, ast.Call):
+            sc = eng.struct_call(value, fi, 'unpack', self.venv)
+            if sc is not None and len(split_fmt(sc[1])) > 1:
+                # fields = struct.unpack(<several fields>, ser_read(f, n)): the fields are fields[0], fields[1], ...
+                n_ = len(split_fmt(sc[1]))
+                self.tuples[var] = n_
+                return self.unpack_items(value, sc, ['%s[%d]' % (var, i) for i in range(n_)], s)
+        if isinstance(value, ast.Subscript) and isinstance(value.value, ast.Name) and (value.value.id in self.tuples or value.value.id.startswith('_unpacked')) \
+                and isinstance(value.slice, ast.Constant) and var:
+            # a = fields[k]: a second name for that field
+            return [Item('alias', var=var, of=norm(value), node=s)]
         its = self.read_expr(value, s)
         if its is None:
             if _touches(value, self.stream):
@@ -1424,11 +1455,14 @@ def finalise_reader(items):
             elif i.kind == 'bind':
                 for v in i.vars:
                     mapping.setdefault(v, i.field)
-            elif i.kind == 'set' and i.value.isidentifier():
+            elif i.kind == 'set' and _re.match(r'^\w+(\[\d+\])?$', i.value):
                 mapping.setdefault(i.value, i.field)
+        for i in seq:
+            if i.kind == 'alias' and i.var in mapping:
+                mapping.setdefault(i.of, mapping[i.var])
         out = []
         for i in seq:
-            if i.kind in ('return', 'bind', 'superobj', 'set'):
+            if i.kind in ('return', 'bind', 'superobj', 'set', 'alias'):
                 continue
             if i.kind == 'cond':
                 i.then = go(i.then, mapping)
